@@ -52,9 +52,41 @@ def parser_table(prog):
     return t
 
 
+def r06_msg(chk, rule="R06-msg"):
+    """a diagnostic is read through its Display text: for every ParserError / TokenizerError variant that carries the position of the
+    problem (`filename` and `error_line`, resp. `line`), the text starts with exactly those two fields as `file:line:`; every other
+    line it mentions (`block_line` ..) comes later.  (The format literal of `#[error(..)]` is the Display implementation.)"""
+    from . import astq
+    n = 0
+    for rel, en, linefield in (("a2lfile/src/parser.rs", "ParserError", "error_line"), ("a2lfile/src/tokenizer.rs", "TokenizerError", "line")):
+        e = astq.enums(rel).get(en)
+        if e is None:
+            chk.add(Finding(rule, "%s::%s::anchor" % (rule, en), "enum %s not found in %s" % (en, rel)))
+            continue
+        for v in e["variants"]:
+            names = [f["name"] for f in v["fields"]]
+            if "filename" not in names or linefield not in names:
+                continue
+            n += 1
+            fmt = None
+            for a in v.get("attrs", []):
+                m = re.match(r'error\s*\(\s*"((?:[^"\\]|\\.)*)"', a)
+                if m:
+                    fmt = m.group(1)
+            if fmt is None:
+                chk.add(Finding(rule, "%s::%s::%s" % (rule, en, v["name"]), "%s::%s has no #[error(\"..\")] format" % (en, v["name"]), rel))
+                continue
+            holes = re.findall(r"\{(\w+)[^}]*\}", fmt)
+            want = "{filename}:{%s}:" % linefield
+            if not fmt.startswith(want) or holes[:2] != ["filename", linefield]:
+                chk.add(Finding(rule, "%s::%s::%s" % (rule, en, v["name"]), "the text of %s::%s does not start with its own position `%s` (it starts with `%s`): the diagnostic is shown at a different line than the one it was detected at" % (en, v["name"], want, fmt[:40]), rel))
+    chk.rule(rule, "diagnostic variants with a position whose Display text starts with `{filename}:{line}:` of that position", n, floor=26)
+
+
 def run(chk):
     prog = mir.prog()
     scope = scopes.load_scope(prog)
+    r06_msg(chk)
     # ------------------------------------------------------------------ R06-single
     readers = set()
     n = 0
